@@ -93,7 +93,7 @@ NOT_APPLICABLE.pop("C20", None)
 claim("C02", E2,
       "Symbolic execution of the real ReplayBuffer / LAP / PrioritizedReplayBuffer / MultiTaskReplayBuffer classes from the empty "
       "state: a symbolic number of additions n in [0,N+3] (capacities 1-4, so exact wrap-around and overwriting are covered) of "
-      "transitions whose every field is a fresh symbol, then one sampled batch whose generator draws are arbitrary in-range values; "
+      "transitions whose every field is a fresh symbol, then one sampled batch whose generator draws are arbitrary in-range values (plain buffers also with an intermediate, discarded sample_batch after one symbolic add position or after every add); "
       "length=min(n,N), every row equals (all fields) one of the last min(n,N) transitions, each of those is still held, never-"
       "written (poisoned) slots are never returned; multi-task: <=5 symbolic select/add/sample operations over 2-3 (4) tasks; an integer-typed first transition must not change the declared storage dtype. PLUS one inductive step: add_sample from an ARBITRARY state satisfying the representation invariant (symbolic cursor/length/contents) re-establishes it and shifts the logical FIFO content - histories of any length for capacities 1-4.",
       E2NOTE + " numpy allocation inside replay_buffer.py is shimmed to object arrays; the shim tracks the logical dtype of each allocation (writes into integer storage truncate as numpy's do); float64->float32 rounding is outside the claim.",
